@@ -605,6 +605,34 @@ def reported_is_objective(ctx, entry, inputs, X, iterates, errs):
                      dict(entry=entry, inputs=dict(inputs, iteration=i, kind="reported error")))
 
 
+PENALISED = "C07_reported_history_with_penalty"
+
+
+def penalised_known_active():
+    """the class 'reported error under a penalty' is judged only once the coordinator has merged known_findings.d/C07.json into
+    known_findings.json (until then the reported histories of penalised runs are counted, as before, not judged)"""
+    try:
+        return any(k.get("classifier") == "penalised_reported_error" for k in C.load_known("C07"))
+    except Exception:
+        return False
+
+
+def penalised_reported_history(ctx, entry, inputs, errs, penalised_objs, what):
+    """l2_reg (parafac) / sparsity (nn-HALS): the blocks descend on the PENALISED objective (C07_cp_history_monotone / C07_nn_history_monotone;
+    judged by the caller through `penalised_objs`), the reported reconstruction error is then not monotone in general
+    (C07_cp_l2_reported_refuted / C07_nn_sparsity_reported_refuted).  An increasing reported history of a penalised run whose penalised
+    objective does descend is the documented class `penalised_reported_error` (KNOWN-FINDING); if the penalised objective increases too the
+    caller's history_check reports a VIOLATION as for every other run"""
+    i = monotone_violation(errs)
+    ctx.chk.hist("penalised reported history", "non-increasing" if i is None else "increases (documented class)")
+    if i is None or not penalised_known_active():
+        return
+    if penalised_objs is not None and monotone_violation(penalised_objs) is None:
+        ctx.chk.finding(entry, inputs, f"{what}: the reported reconstruction error increases at sweep {i}->{i + 1} ({float(errs[i])!r} -> {float(errs[i + 1])!r}) "
+                        "while the penalised objective the blocks solve descends", PENALISED,
+                        observed=[float(x) for x in errs[max(0, i - 1):i + 3]], expected="non-increasing only without penalty")
+
+
 def reported_matches(ctx, entry, inputs, errs, objs, tol=1e-6):
     """the error reported after sweep t is the relative error of the iterate after sweep t (recomputed from a prefix run with the same seed):
     ties the 'sequence of reported errors' to the objective the theorems speak about (C07_hooi_reported_monotone, C07_tr_reported_monotone,
@@ -720,6 +748,8 @@ def run_parafac(ctx, n_runs):
             continue
         if lam == 0.0:
             history_check(ctx, entry, inputs, errs)
+        elif iterates and "normalize" not in variant:
+            penalised_reported_history(ctx, entry, inputs, errs, [cp_objective_rel(X, wts, fs, lam) for (wts, fs) in iterates[1:]], "parafac(l2_reg=%g)" % lam)
         # objective recomputed from the iterates handed to the callback (initial guess first): ||X - [[w; A..]]||^2 (+ the
         # ridge terms of all modes; a renormalisation changes those, so with l2_reg and normalize_factors only blocks are judged)
         if iterates and not (lam and "normalize" in variant):
@@ -835,6 +865,8 @@ def run_nn_hals(ctx, n_runs):
                               what="objective recomputed from prefix runs")
                 if sparsity is None:
                     reported_matches(ctx, entry, inputs, errs, [math.sqrt(max(o, 0.0) / n2) for o in objs])
+                else:
+                    penalised_reported_history(ctx, entry, inputs, errs[:len(objs)], [o / n2 for o in objs], "non_negative_parafac_hals(sparsity)")
         ctx.add_case("modes", modes_case_lit, dict(n=nd, fixed=list(kw.get("fixed_modes", [])), is_nn=True, observed=first_sweep_modes(cap)),
                      dict(entry=entry, inputs=dict(inputs, kind="updated modes")))
         for hb in cap.halsruns:
@@ -1462,7 +1494,7 @@ def run(chk):
                        "HOOI and PARAFAC2 projections: reported and recomputed histories are judged; Ky Fan / Procrustes optimality are named hypotheses of the _partial theorems"]
     chk.trusted = ["float re-computation of objectives in the Python predicates (NumPy)", "monkeypatched capture of block arguments (copies)",
                    "prefix runs with the same seed reproduce the trajectory of the longer run"]
-    return chk.finish({})
+    return chk.finish({"penalised_reported_error": lambda f: f.get("predicate") == PENALISED})
 
 
 def replay(payload):
